@@ -139,7 +139,15 @@ def record_session(rng, noise: bool, names: list[str], nwrites: int):
         tx0 = codec.nd.rx_nonce if noise else 0  # nonces already used by the connect phase
         connect_phase_ok = not codec.format_errors and (not noise or tx0 == 1)  # hello was nonce 0
         schema, byid, byname = __import__("vf.world", fromlist=["schema"]).schema()
+        paused = False
         for _ in range(nwrites):
+            if rng.random() < 0.12:
+                # the transport signals flow control (its buffer crossed a water mark); the loop runs on
+                calls = tr.write_calls
+                paused = not paused
+                (tr.protocol.pause_writing if paused else tr.protocol.resume_writing)()
+                L.run_until_idle()
+                events.append({"sig": "pause" if paused else "resume", "pk": [], "writes": tr.write_calls - calls, "exact": True})
             batch = [sample_message(rng, rng.choice(names)) for _ in range(rng.choice((1, 1, 1, 2, 3, 5)))]
             nbefore = len(codec.client_msgs)
             raw_before = len(tr.writes)
@@ -187,7 +195,7 @@ def record_session(rng, noise: bool, names: list[str], nwrites: int):
                 pk.append(rec)
             if pos != len(data):
                 exact = False
-            events.append({"pk": pk, "writes": tr.write_calls - calls, "exact": exact and connect_phase_ok})
+            events.append({"sig": "", "pk": pk, "writes": tr.write_calls - calls, "exact": exact and connect_phase_ok})
         return {"mode": "noise" if noise else "plain", "tx0": tx0, "events": events}
     finally:
         w.close()
